@@ -449,6 +449,20 @@ try:
 except Exception as ex:
     problems.append("build_cfg: %s" % ex)
     lines += ["def cfgJumpOpcodesSrc : List Nat := []", "def cfgNextOnlySrc : List Nat := []", "def prepareJumpBlocksShape : Bool := false", "def translateHeadShape : Bool := false", "def translateTailShape : Bool := false", ""]
+# ---- helper symbols: the name under which `CraneliftCompiler::new` registers a helper's address and the name `build_function_prelude` imports must be the same function of the id
+try:
+    flat = " ".join(txt.split())
+    m1 = re.search(r"for \(k, v\) in helpers\.iter\(\) \{ let name = format!\(\"([^\"]*)\", k\); jit_builder\.symbol\(name, \(\*v\) as usize as \*const u8\); \}", flat)
+    m2 = re.search(r"for \(k, _\) in self\.helpers\.iter\(\) \{ let name = format!\(\"([^\"]*)\", k\); let sig = Signature \{ params: vec!\[ AbiParam::new\(I64\), AbiParam::new\(I64\), AbiParam::new\(I64\), AbiParam::new\(I64\), AbiParam::new\(I64\), \], "
+                   r"returns: vec!\[AbiParam::new\(I64\)\], call_conv: self\.isa\.default_call_conv\(\), \}; let func_id = self \.module \.declare_function\(&name, Linkage::Import, &sig\) \.unwrap\(\); "
+                   r"let func_ref = self\.module\.declare_func_in_func\(func_id, bcx\.func\); self\.helper_func_refs\.insert\(\*k, func_ref\); \}", flat)
+    if not m1 or not m2: raise SyntaxError("helper registration / import loops")
+    def chars(s_): return "[" + ", ".join("'%s'" % c for c in s_) + "]"
+    lines += ["/-- the symbol name a helper's address is registered under (`CraneliftCompiler::new`) and the name the function imports (`build_function_prelude`): format strings over the id;",
+              "    the import has five I64 parameters and one I64 result -/",
+              "def helperSymbolDefSrc : List Char := %s" % chars(m1.group(1)), "def helperSymbolImportSrc : List Char := %s" % chars(m2.group(1)), "def helperSymbolsSrcOk : Bool := true", ""]
+except Exception as ex:
+    problems.append("helper symbols: %s" % ex); lines += ["def helperSymbolDefSrc : List Char := []", "def helperSymbolImportSrc : List Char := ['x']", "def helperSymbolsSrcOk : Bool := false", ""]
 for p_ in problems: lines.append("/- not translated: %s -/" % p_.replace("-/", "- /"))
 lines += ["end Rbpf.Generated.Clif", ""]
 new = "\n".join(lines)
